@@ -13,6 +13,7 @@ import (
 	"github.com/yandex/pandora/lib/monitoring"
 	"go.uber.org/zap"
 
+	"verifsim/ref"
 	"verifsim/simrt"
 	"verifsim/stubs"
 )
@@ -20,11 +21,12 @@ import (
 // ---- shared engine-level harness (C03, C04, C12) ----
 
 type schedSpec struct {
-	Conf   interface{}   // what goes through config.Decode (map or list of maps)
-	Desc   string        // human readable
-	Tokens int           // token count of a fresh instance (drained twin), -1 unknown
-	Dur    time.Duration // total duration
-	Offs   []time.Duration
+	Conf      interface{}   // what goes through config.Decode (map or list of maps)
+	Desc      string        // human readable
+	Tokens    int           // token count of a fresh instance (drained twin / reference upper bound)
+	MinTokens int           // reference lower bound (startup profiles)
+	Dur       time.Duration // total duration
+	Offs      []time.Duration
 }
 
 func decodeSchedule(conf interface{}) (core.Schedule, error) {
@@ -176,14 +178,15 @@ func genStartup(w *simrt.Stream, maxInst int) schedSpec {
 			}
 			sp.Desc = fmt.Sprintf("[once(%d), const(0,%v), once(%d)]", n1, d, n2)
 		}
-		offs, dur, err := twinDrain(sp.Conf)
+		// reference token offsets from the documented semantics (independent of pandora's schedules)
+		offs, dur, minTok, err := ref.OffsetsOf(sp.Conf)
 		if err != nil {
-			panic(fmt.Sprintf("generated startup %s does not decode: %v", sp.Desc, err))
+			panic(fmt.Sprintf("generated startup %s: %v", sp.Desc, err))
 		}
-		if len(offs) == 0 || len(offs) > maxInst {
+		if minTok == 0 || len(offs) > maxInst {
 			continue
 		}
-		sp.Tokens, sp.Dur, sp.Offs = len(offs), dur, offs
+		sp.Tokens, sp.MinTokens, sp.Dur, sp.Offs = len(offs), minTok, dur, offs
 		return sp
 	}
 }
